@@ -102,9 +102,10 @@ func (l *OpenFgaDslListener) EnterMain(_ *parser.MainContext) {
 
 func (l *OpenFgaDslListener) ExitModuleHeader(ctx *parser.ModuleHeaderContext) {
 	l.isModularModel = true
+	l.typeDefExtensions = map[string]*openfgav1.TypeDefinition{}
+
 	if ctx.GetModuleName() != nil {
 		l.moduleName = ctx.GetModuleName().GetText()
-		l.typeDefExtensions = map[string]*openfgav1.TypeDefinition{}
 	}
 }
 
